@@ -294,11 +294,69 @@ def explore_c14(ctx, n_hist, steps):
     return {"violations": viol, "disagreements": dis, "coverage": cov}
 
 
+def option_cases(only=None):
+    """A dry run is given the SAME options as the run it previews and goes through the same stale check: with `retry=n` (an int
+    or the caller's own decorator) and a store whose modified-time query fails transiently (its first j < n attempts), both the
+    real run and the dry run from the same store state succeed - and a dry run with `stale_check_max_workers`, with every bundled
+    progress display, returns a plan all the same."""
+    import datetime as dt
+    from harness import retry_corr
+    from uberjob._util.retry import create_retry
+    from uberjob.progress import console_progress, html_progress, null_progress
+    viol, done = [], 0
+    cases = [only] if only is not None else [[how, n, j] for how in ("int", "decorator") for n, j in ((2, 1), (3, 2), (3, 1))] + [["options", 0, 0]]
+    for how, n, j in cases:
+        if how == "options":
+            import contextlib
+            import io
+            import tempfile
+            for prog_name in ("console", "html", "null"):
+                plan, reg = uberjob.Plan(), uberjob.Registry()
+                a = plan.call(lambda: 1)
+                reg.add(a, retry_corr.FlakyStore())
+                with tempfile.TemporaryDirectory() as d, contextlib.redirect_stdout(io.StringIO()):
+                    prog = {"console": console_progress, "html": html_progress(d + "/p.html"), "null": null_progress}[prog_name]
+                    try:
+                        res = uberjob.run(plan, registry=reg, output=a, dry_run=True, stale_check_max_workers=3, max_workers=2, progress=prog, retry=2)
+                        ok = isinstance(res, tuple) and len(res) == 2
+                    except Exception as e:      # noqa: BLE001
+                        ok, res = False, e
+                done += 1
+                if not ok:
+                    viol.append({"property": "C14", "what": f"a dry run with stale_check_max_workers, retry and {prog_name} progress gave {res!r}",
+                                 "kind": "options", "case": [how, n, j]})
+            continue
+        outcomes = []
+        for dry in (False, True):
+            plan, reg = uberjob.Plan(), uberjob.Registry()
+            store = retry_corr.FlakyStore(fail_op="mtime", fail_first=j, mtime=dt.datetime(2021, 1, 1))
+            store.value = 41
+            src = reg.source(plan, store)
+            out = plan.call(lambda x: x + 1, src)
+            retry = n if how == "int" else create_retry(n)
+            try:
+                res = uberjob.run(plan, registry=reg, output=out, retry=retry, progress=None, max_workers=1, dry_run=dry)
+                outcomes.append("ok" if (dry and isinstance(res, tuple)) or (not dry and res == 42) else "value %r" % (res,))
+            except Exception as e:      # noqa: BLE001
+                outcomes.append("raised %s" % type(e).__name__)
+        done += 1
+        if outcomes != ["ok", "ok"]:
+            viol.append({"property": "C14", "what": f"retry={'%d' % n if how == 'int' else 'create_retry(%d)' % n} and a modified-time query failing its "
+                         f"first {j} attempt(s): the real run {outcomes[0]}, the dry run from the same state {outcomes[1]}",
+                         "kind": "options", "case": [how, n, j]})
+            break
+    return viol, done
+
+
 def explore(ctx):
     from harness.common import Broken
     quick = ctx.tier == "quick"
     res = explore_c14(ctx, 110 if quick else 2200, steps=4 if quick else 5)
     cov = res["coverage"]
+    if not res["violations"]:
+        v, n = option_cases()
+        res["violations"] += v
+        cov["option_cases"] = n
     if not res["violations"] and not res["disagreements"]:
         if cov["pairs"] and cov["nontrivial"] * 2 < cov["pairs"]:
             raise Broken("correspondence", "generator-floor", "fewer than half of the compared runs performed any call or store operation")
@@ -317,11 +375,16 @@ def search(ctx, broken):
         found += explore_c14(c, 300, steps=5)["violations"]
         if found:
             break
+    if not found:
+        found += option_cases()[0]
     return found
 
 
 def replay(ctx, payload):
     w = payload.get("witness", payload)
+    if w.get("kind") == "options":
+        v, _ = option_cases(only=w["case"])
+        return v[0]["what"] if v else None
     for _ in range(3):
         v, d, _ = run_history(w["spec"], w["hseed"], w["steps"], ctx.driver)
         if v or d:
